@@ -95,6 +95,8 @@ def run_case(case, rec):
         (pkg / 'LICENSE').write_text('license')
         (pkg / 'citation.bib').write_text('@misc{x}')
         (pkg / 'notes.txt').write_text('not a resource')
+        (pkg / 'logo.png').write_bytes(b'\x89PNG\r\n\x1a\n\x00\x00\x00\rIHDR\xff\xfe\x80\x81 not utf-8 \xe9\xe8')
+        (pkg / 'LISEZMOI.txt').write_bytes('r\xe9sum\xe9 en latin-1'.encode('latin-1'))
         routes['package'] = pkg
         for name, mode in (('tar', 'w'), ('tar.gz', 'w:gz'), ('tar.xz', 'w:xz')):
             t = inputs / f'file.{name}'
@@ -117,6 +119,14 @@ def run_case(case, rec):
             t = inputs / 'collection.tar.gz'
             make_tar(coll, t, 'w:gz')
             routes['tar.gz(collection)'] = t
+            t = inputs / 'collection-dot.tar'
+            with tarfile.open(t, 'w') as tar:            # member names as `tar -cf x.tar ./mycollection` writes them
+                tar.add(coll, arcname='./' + coll.name)
+            routes['tar(./collection)'] = t
+        t = inputs / 'package-dot.tar.xz'
+        with tarfile.open(t, 'w:xz') as tar:
+            tar.add(pkg, arcname='./' + pkg.name)
+        routes['tar.xz(./package)'] = t
         routes['in-memory'] = None
 
         before_inputs = tree_sha(inputs)
